@@ -25,6 +25,7 @@ type SV struct {
 type SpecEnv struct {
 	x      *Exec
 	names  func(string) *SV
+	rebind func(map[string]*Term) func(string) *SV // names over another heap (old(...) of address-taken / captured variables)
 	heap   map[string]*Term
 	old    *SpecEnv // environment for old(...)
 	bound  map[string]*SV
@@ -123,6 +124,11 @@ func (env *SpecEnv) eval(e *Expr) *SV {
 		// old(e): the heap of the pre-state; names (parameters, results, bound variables) keep their values
 		o := *env
 		o.heap = env.old.heap
+		if env.rebind != nil {
+			// a name that denotes a memory cell (address-taken local, variable captured by reference)
+			// reads its pre-state content
+			o.names = env.rebind(o.heap)
+		}
 		o.old = nil
 		return o.eval(e.Args[0])
 	case "unary":
